@@ -127,6 +127,19 @@ def main():
         out['nodes'] = coq_list(coq_node(n) for n in snodes)
         out['ticked'] = coq_list(str(i) for i, n in enumerate(snodes) if br.is_ticked(n))
         out['n_nodes'] = len(snodes)
+        out['n_worlds'] = len(br.worlds)
+        out['max_worlds'] = None
+        try:
+            from pytableaux.proof.helpers import MaxWorlds
+            for rule in tab.rules:
+                try:
+                    h = rule[MaxWorlds]
+                except Exception:
+                    continue
+                out['max_worlds'] = h.get(br.origin)
+                break
+        except Exception:
+            pass
         def shape(n):
             if 'sentence' not in n:
                 return 'access'
